@@ -77,10 +77,11 @@ h_thread, h_process, h_remote, h_pthread, h_pprocess, h_premote = [make_h(k) for
 
 
 # ---- restart chain (persistent kinds) -------------------------------------------------------------
-def h_restart(kind, init, m, chain):
+def h_restart(kind, init, m, chain, pre=0):
     with notrace():
         kind_ = 3 + conc(kind, 3)
         init_, m_, chain_ = conc(init, len(INIT)), conc(m, 4), 1 + conc(chain, 3)
+        pre_ = conc(pre, 3)
         ev("c16r", wsim.KIND_NAMES[kind_], init_, m_, chain_)
         T.reset()
         W = wsim.World(server=wsim.is_remote_kind(kind_))
@@ -100,6 +101,16 @@ def h_restart(kind, init, m, chain):
                                    "incarnation %d saw %r expected %r" % (inc, first, expect_initial))
                 assigned = [v for (what, v) in T.STATE_LOG if what == "assigned"]
                 expect_initial = assigned[-1] if assigned else expect_initial
+                if pre_ == 1:
+                    # the user terminates the worker explicitly (gracefully) and restarts it afterwards
+                    w.terminate(timeout=5)
+                elif pre_ == 2:
+                    # the worker ends on its own and the user notices through is_alive() before restarting it
+                    w.close()
+                    for _ in range(10):
+                        if not w.is_alive():
+                            break
+                        W.sim.sleep(1)
                 w.restart(timeout=5)
             w.wait(timeout=5)
             return Outcome(None, m_ > 0)
@@ -122,9 +133,9 @@ def _harness(kind):
 
 
 H_RESTART = Harness("restart", "vf.props.c16:h_restart",
-                    OrderedDict([("kind", (0, 2)), ("init", (0, len(INIT) - 1)), ("m", (0, 3)), ("chain", (0, 2))]),
-                    tiers={"quick": {"partition": ["kind"], "timeout": 300, "twin_fixed": {"kind": 1}},
-                           "thorough": {"partition": ["kind", "chain"], "timeout": 600, "twin_fixed": {"kind": 1, "chain": 1}}},
+                    OrderedDict([("kind", (0, 2)), ("init", (0, len(INIT) - 1)), ("m", (0, 3)), ("chain", (0, 2)), ("pre", (0, 2))]),
+                    tiers={"quick": {"partition": ["kind", "pre"], "timeout": 300, "twin_fixed": {"kind": 1, "pre": 0}},
+                           "thorough": {"partition": ["kind", "chain", "pre"], "timeout": 600, "twin_fixed": {"kind": 1, "chain": 1, "pre": 0}}},
                     functions=["pyworkers.persistent:PersistentWorker.restart", "pyworkers.worker:Worker._get_restart_args"])
 
 HARNESSES = [_harness(k) for k in range(6)] + [H_RESTART]
